@@ -192,6 +192,12 @@ func c08Run(c *mc.Ctx) {
 			note("vurl=quoted")
 		}
 	}
+	foreignK := 0
+	if real {
+		if foreignK = dev(len(c08ForeignVURL), "foreign-validity-url-spelling"); foreignK > 0 {
+			note("foreign-vurl=" + c08ForeignVURL[foreignK])
+		}
+	}
 	certURL := c08Origin + "cert.cbor"
 	switch dev(4, "cert-url") {
 	case 1:
@@ -491,6 +497,19 @@ func c08Run(c *mc.Ctx) {
 	} else {
 		clean = clean && (status == 200 || status == 404)
 	}
+	// A conforming foreign signer may spell the validity URL in any way; the bytes in the
+	// Signature header are what is signed (they need not be a fixed point of Go's
+	// url.Parse(...).String()).  The implementation's own signer can only emit normalised
+	// spellings, so these are exercised in this direction only.
+	if foreignK > 0 && clean {
+		rawV := c08ForeignVURL[foreignK]
+		m2, merr := refsxg.SignedMessage(x, certSha[:], rawV, date, expires)
+		if merr != nil {
+			panic("c08: reference message: " + merr.Error())
+		}
+		refMsg = m2
+		want.ValidityURL = rawV
+	}
 	rsig, err := refsxg.SignECDSA(chain.key, refMsg)
 	if err != nil {
 		panic("c08: reference signing: " + err.Error())
@@ -567,6 +586,9 @@ func c08Diff(a, other []byte) string {
 	}
 	return fmt.Sprintf("len=%d first difference at offset %d: ...%x|%x...", len(a), i, a[lo:i], a[i:hi])
 }
+
+// spellings of the validity URL a foreign signer may use (reference-signed direction only)
+var c08ForeignVURL = []string{"", "HTTPS://a.test/resource.validity", c08Origin + "v|x^{y}", c08Origin + "resource.validity#", c08Origin + "a b<c>"}
 
 func init() {
 	// harness-side sanity: every URL of the alphabet survives url.URL.String()
